@@ -89,6 +89,25 @@ func updateTimeBoundsForRow(lo *storage.LookupOptions, cls *semantic.GraphClause
 	return nlo, nil
 }
 
+// inTimeBounds returns true if the predicate is immutable or its time anchor
+// lies inside the time bounds of the lookup options.
+func inTimeBounds(p *predicate.Predicate, lo *storage.LookupOptions) bool {
+	if p.Type() != predicate.Temporal {
+		return true
+	}
+	ta, err := p.TimeAnchor()
+	if err != nil {
+		return true
+	}
+	if lo.LowerAnchor != nil && ta.Before(*lo.LowerAnchor) {
+		return false
+	}
+	if lo.UpperAnchor != nil && ta.After(*lo.UpperAnchor) {
+		return false
+	}
+	return true
+}
+
 // simpleExist returns true if the triple exist. Return the unfeasible state,
 // the table and the error if present.
 func simpleExist(ctx context.Context, gs []storage.Graph, cls *semantic.GraphClause, t *triple.Triple, w io.Writer) (bool, *table.Table, error) {
@@ -137,6 +156,11 @@ func simpleFetch(ctx context.Context, gs []storage.Graph, cls *semantic.GraphCla
 		t, err := triple.New(s, p, o)
 		if err != nil {
 			return nil, err
+		}
+		if !inTimeBounds(p, lo) {
+			// Exist knows nothing about time bounds; a temporal predicate
+			// anchored outside of them cannot match.
+			return tbl, nil
 		}
 		for _, g := range gs {
 			gID := g.ID(ctx)
